@@ -58,3 +58,9 @@ Proof.
   destruct records_shapes as (R & _). destruct recording_call_sites as (_ & _ & L & _ & _ & LR).
   exact (conj R (conj LR L)).
 Qed.
+
+(* the order the pass theorem needs is the one the code computes: one visited set and one
+   post-order list for all changed entries of the pass, reversed once as a whole *)
+Theorem C05_code_pass_order_is_one_reversed_post_order :
+  topo_wf DepsGraph_topological_sort_from = true /\ into_iter_reverses TopologicalSort_into_iter = true.
+Proof. exact pass_order_is_one_reversed_post_order. Qed.
